@@ -411,6 +411,43 @@ func runCopy(mode string, seed int64, tier string, sc *Script) map[string]any {
 			caseNo++
 		}
 	}
+	// C04: the same shape with a callback of the shared node returning an error while the
+	// parents' other children are still being pushed (held open): no parent may be announced
+	// (PreCopy / PostCopy) as if the shared child had been settled
+	if mode == "C04" {
+		reps := 24
+		if tier == "thorough" {
+			reps = 600
+		}
+		for i := 0; i < reps; i++ {
+			u := NewUniverse()
+			cfgB := u.AddBlob(ocispec.MediaTypeImageConfig, []byte(fmt.Sprintf("{\"c4\":%d}", i)))
+			shared := u.AddBlob(ocispec.MediaTypeImageLayer, []byte(fmt.Sprintf("c4-shared-%d", i)))
+			hold := map[int]time.Duration{}
+			var parents []int
+			np := 2 + rng.Intn(3)
+			for k := 0; k < np; k++ {
+				own := u.AddBlob(ocispec.MediaTypeImageLayer, []byte(fmt.Sprintf("c4-own-%d-%d", i, k)))
+				hold[own.ID] = 4 * time.Millisecond
+				m := u.AddImage(KOCIManifest, cfgB.ID, []int{shared.ID, own.ID}, -1, "", map[string]string{"k": fmt.Sprint(k)})
+				parents = append(parents, m.ID)
+			}
+			var top []int
+			for k, pid := range parents {
+				if k%2 == 1 {
+					top = append(top, u.AddIndex(KOCIIndex, []int{pid}, -1, "", map[string]string{"w": fmt.Sprint(k)}).ID)
+				} else {
+					top = append(top, pid)
+				}
+			}
+			root := u.AddIndex(KOCIIndex, top, -1, "", map[string]string{"c4root": fmt.Sprint(i)})
+			op := []string{"preCopy", "postCopy", "push"}[i%3]
+			cc := copyCase{u: u, roots: []int{root.ID}, dst: []dstKind{"memory", "oci"}[i%2], conc: 3 + rng.Intn(4),
+				faults: []fault{{op: op, node: shared.ID, mode: "before"}}, hold: hold, label: "shared-failing-kid-held"}
+			exec(cc, caseNo)
+			caseNo++
+		}
+	}
 	// C02: the mount of a blob fails at the first of two candidate repositories, before any
 	// side effect: the copy reports the error, the destination stays closed, a retry completes
 	if mode == "C02" {
@@ -781,6 +818,99 @@ func runCopy(mode string, seed int64, tier string, sc *Script) map[string]any {
 			runs++
 			sc.Count("bare-retry:" + strings.SplitN(res, ":", 2)[0])
 		}
+		// the same over the three local destinations, with the fault inside the transfer: the
+		// source hands out a reader that breaks off half way (once), or the pushed bytes are
+		// not the described ones (once).  The first Copy fails; the same Copy again, with
+		// nothing in its way and into the same destination, completes and tags.
+		for vi := 0; vi < 12; vi++ {
+			dstKind := []string{"file", "memory", "oci"}[vi%3]
+			fault := []string{"read-breaks-off", "other-bytes"}[(vi/3)%2]
+			sc.Case("transfer-fault-retry")
+			sc.NonTrivial()
+			src := memory.New()
+			cfg := []byte(fmt.Sprintf("{\"tfr\":%d}", vi))
+			cd := descOf(ocispec.MediaTypeImageConfig, cfg)
+			m := ocispec.Manifest{MediaType: ocispec.MediaTypeImageManifest, Config: cd}
+			m.SchemaVersion = 2
+			bodies := map[digest.Digest][]byte{cd.Digest: cfg}
+			src.Push(ctx, cd, bytes.NewReader(cfg))
+			nl := 1 + vi%3
+			for k := 0; k < nl; k++ {
+				data := bytes.Repeat([]byte(fmt.Sprintf("layer-%d-%d;", vi, k)), 400)
+				ld := descOf(ocispec.MediaTypeImageLayer, data)
+				src.Push(ctx, ld, bytes.NewReader(data))
+				if k != 1 {
+					ld.Annotations = map[string]string{ocispec.AnnotationTitle: fmt.Sprintf("file-%d.bin", k)}
+				}
+				m.Layers = append(m.Layers, ld)
+				bodies[ld.Digest] = data
+			}
+			mb, _ := json.Marshal(m)
+			md := descOf(ocispec.MediaTypeImageManifest, mb)
+			bodies[md.Digest] = mb
+			if err := src.Push(ctx, md, bytes.NewReader(mb)); err != nil {
+				panic(err)
+			}
+			src.Tag(ctx, md, "srcref")
+			dir := filepath.Join(tmp, fmt.Sprintf("tfr%d", vi))
+			var dstT oras.Target
+			switch dstKind {
+			case "file":
+				fsd, err := file.New(dir)
+				if err != nil {
+					panic(err)
+				}
+				defer fsd.Close()
+				dstT = fsd
+			case "oci":
+				od, err := oci.New(dir)
+				if err != nil {
+					panic(err)
+				}
+				dstT = od
+			default:
+				dstT = memory.New()
+			}
+			victim := m.Layers[vi%nl]
+			fs := &breakingSrc{Target: src, dig: victim.Digest, how: fault}
+			conc := 1 + vi%3
+			opts := oras.CopyOptions{CopyGraphOptions: oras.CopyGraphOptions{Concurrency: conc}}
+			_, err1 := oras.Copy(ctx, fs, "srcref", dstT, "v", opts)
+			first := "err"
+			if err1 == nil {
+				first = "ok"
+			}
+			_, err2 := oras.Copy(ctx, src, "srcref", dstT, "v", opts)
+			res := "ok"
+			if err2 != nil {
+				res = "retry-failed:" + strings.ReplaceAll(err2.Error(), " ", "_")
+			} else {
+				for _, d := range append([]ocispec.Descriptor{md, cd}, m.Layers...) {
+					rc, ferr := dstT.Fetch(ctx, d)
+					if ferr != nil {
+						res = "retry-incomplete(" + d.MediaType + ")"
+						break
+					}
+					b, _ := io.ReadAll(rc)
+					rc.Close()
+					if !bytes.Equal(b, bodies[d.Digest]) {
+						res = "retry-other-bytes(" + d.MediaType + ")"
+						break
+					}
+				}
+				if _, rerr := dstT.Resolve(ctx, "v"); rerr != nil && res == "ok" {
+					res = "retry-untagged"
+				}
+			}
+			verdict := "fails-or-complete"
+			if first != "err" || res != "ok" {
+				verdict = "first=" + first + ",retry=" + res
+			}
+			sc.Op(verdict, "cp cancelled at=transfer-fault dst=%s fault=%s conc=%d first=%s retry=%s", dstKind, fault, conc, first, strings.SplitN(res, ":", 2)[0])
+			os.RemoveAll(dir)
+			runs++
+			sc.Count("transfer-fault-retry:" + dstKind + ":" + fault)
+		}
 	}
 	// C01 under cancellation: the context is cancelled before the call, or while the k-th
 	// source fetch is under way.  Whatever happens, a nil error means the whole graph is there
@@ -943,6 +1073,78 @@ func runCopy(mode string, seed int64, tier string, sc *Script) map[string]any {
 			os.RemoveAll(dir)
 			runs++
 			sc.Count("copy-file-titles:" + variant + ":" + res)
+		}
+		// one blob listed several times in a manifest, with and without titles, into a fresh
+		// file store: the copy moves the bytes once; every listed occurrence is there afterwards
+		// (untitled ones by digest, titled ones as files of that name)
+		for vi, titles := range [][]string{{"", "hello.txt"}, {"hello.txt", ""}, {"a.txt", "b.txt"}, {"", "a.txt", "b.txt"}, {"a.txt", "", "a.txt"}, {"", ""}} {
+			for _, conc := range []int{1, 0} {
+				sc.Case("copy-file-duplicates")
+				sc.NonTrivial()
+				src := memory.New()
+				cfg := []byte(fmt.Sprintf("{\"dups\":%d}", vi))
+				data := []byte(fmt.Sprintf("shared-bytes-%d", vi))
+				cd := descOf(ocispec.MediaTypeImageConfig, cfg)
+				m := ocispec.Manifest{MediaType: ocispec.MediaTypeImageManifest, Config: cd}
+				m.SchemaVersion = 2
+				for _, t := range titles {
+					ld := descOf(ocispec.MediaTypeImageLayer, data)
+					if t != "" {
+						ld.Annotations = map[string]string{ocispec.AnnotationTitle: t}
+					}
+					m.Layers = append(m.Layers, ld)
+				}
+				mb, _ := json.Marshal(m)
+				md := descOf(ocispec.MediaTypeImageManifest, mb)
+				src.Push(ctx, cd, bytes.NewReader(cfg))
+				src.Push(ctx, descOf(ocispec.MediaTypeImageLayer, data), bytes.NewReader(data))
+				if err := src.Push(ctx, md, bytes.NewReader(mb)); err != nil {
+					panic(err)
+				}
+				src.Tag(ctx, md, "v")
+				dir := filepath.Join(tmp, fmt.Sprintf("fd%d-%d", vi, conc))
+				dst, err := file.New(dir)
+				if err != nil {
+					panic(err)
+				}
+				opts := oras.DefaultCopyOptions
+				opts.Concurrency = conc
+				_, err = oras.Copy(ctx, src, "v", dst, "", opts)
+				verdict, res := "fails-or-complete", "ok"
+				if err != nil {
+					res = "err"
+					verdict = "refused:" + strings.ReplaceAll(err.Error(), " ", "_")
+				} else {
+					for _, ld := range m.Layers {
+						t := ld.Annotations[ocispec.AnnotationTitle]
+						if ok, _ := dst.Exists(ctx, ld); !ok {
+							verdict = "ok-but-missing(title=" + t + ")"
+							break
+						}
+						rc, ferr := dst.Fetch(ctx, ld)
+						if ferr != nil {
+							verdict = "ok-but-unfetchable(title=" + t + ")"
+							break
+						}
+						b, _ := io.ReadAll(rc)
+						rc.Close()
+						if !bytes.Equal(b, data) {
+							verdict = "ok-but-other-bytes(title=" + t + ")"
+							break
+						}
+						if t != "" {
+							if fb, rerr := os.ReadFile(filepath.Join(dir, t)); rerr != nil || !bytes.Equal(fb, data) {
+								verdict = "ok-but-no-such-file(title=" + t + ")"
+								break
+							}
+						}
+					}
+				}
+				sc.Op(verdict, "cp cancelled at=fileduplicates titles=%s conc=%d res=%s", strings.Join(titles, "|"), conc, res)
+				dst.Close()
+				os.RemoveAll(dir)
+				runs++
+			}
 		}
 	}
 	// C04: the same accounting over ExtendedCopyGraph with several roots (a subject with
@@ -1169,6 +1371,51 @@ func (f *failOnceDst) Push(ctx context.Context, d ocispec.Descriptor, r io.Reade
 		return errInjected
 	}
 	return f.Target.Push(ctx, d, r)
+}
+
+// breakingSrc: the content of one blob arrives damaged, once - the reader breaks off half way,
+// or delivers bytes of the right length that are not the described ones.
+type breakingSrc struct {
+	oras.Target
+	dig   digest.Digest
+	how   string
+	fired int32
+}
+
+type breakingReader struct {
+	r    io.Reader
+	left int64
+}
+
+func (b *breakingReader) Read(p []byte) (int, error) {
+	if b.left <= 0 {
+		return 0, errInjected
+	}
+	if int64(len(p)) > b.left {
+		p = p[:b.left]
+	}
+	n, err := b.r.Read(p)
+	b.left -= int64(n)
+	return n, err
+}
+
+func (f *breakingSrc) Fetch(ctx context.Context, d ocispec.Descriptor) (io.ReadCloser, error) {
+	rc, err := f.Target.Fetch(ctx, d)
+	if err != nil || d.Digest != f.dig || !atomic.CompareAndSwapInt32(&f.fired, 0, 1) {
+		return rc, err
+	}
+	if f.how == "other-bytes" {
+		b, _ := io.ReadAll(rc)
+		rc.Close()
+		for i := range b {
+			b[i] ^= 0x20
+		}
+		return io.NopCloser(bytes.NewReader(b)), nil
+	}
+	return struct {
+		io.Reader
+		io.Closer
+	}{&breakingReader{r: rc, left: d.Size / 2}, rc}, nil
 }
 
 // presentByDigest: which of the wanted nodes can be fetched back from the store byte for byte
